@@ -1,7 +1,7 @@
 (* Properties/C16.v — C16: NYCT trips extension derives standard fields and is transparent otherwise.
    Model: the NyctTrips part of Model/Realtime.v (extensions/nycttrips), the station set regenerated from the source
    (Gen/NyctTables.v); tied by the rt_nycttrips engine for all four option combinations. *)
-From GV Require Import Base.Prelude Model.RtTypes Model.RtWire Model.Realtime Proofs.RealtimeProofs Gen.Enums Gen.NyctTables.
+From GV Require Import Base.Prelude Model.RtTypes Model.RtWire Model.Realtime Proofs.RealtimeProofs Gen.Enums Gen.NyctTables Gen.Footprint.
 
 (* the start time is the origin time (hundredths of a minute) truncated to whole seconds - for EVERY origin time 000000-599999 *)
 Theorem C16_start_time : forall n, 0 <= n < 600000 ->
@@ -64,3 +64,7 @@ Proof. intros s. unfold buggy_station_ids. cbn. tauto. Qed.
 Print Assumptions C16_station_set.
 Example C16_example : mswap_stop "M11N" = "M11S" /\ mswap_stop "M11X" = "M11X" /\ mswap_stop "M15N" = "M15N" /\ origin_start_time 67800 = "11:18:00".
 Proof. vm_compute. repeat split. Qed.
+
+(* tie to the source: the NYCT trip id pattern as it stands in nycttrips.go now (trip_id_origin implements this language) *)
+Example C16_regex_source : alookup "TripIDRegex" regex_sources = Some "^([0-9]{6})_([[:alnum:]]{1,2})..([SN])([[:alnum:]]*)$".
+Proof. reflexivity. Qed.
